@@ -283,6 +283,8 @@ def main(argv: list[str]) -> int:
         # 3. shrink, write replay files, verify in a fresh process
         replays_dir = VERIF / "replays"
         replays_dir.mkdir(exist_ok=True)
+        for old in replays_dir.glob(f"{prop}-*.json"):  # the directory reflects the current run
+            old.unlink()
         n_viol = 0
         from simkit.shrink import shrink
 
